@@ -5,7 +5,7 @@ D=$(mktemp -d /tmp/seedtest_XXXX); cp -r /repo $D/repo; rm -rf $D/repo/.git
 (cd $D/repo && git init -q . 2>/dev/null; git apply --whitespace=nowarn $P) || { echo "PATCH DOES NOT APPLY: $P"; rm -rf $D; exit 3; }
 rm -rf $D/repo/.git
 for c in "$@"; do
-  out=$(VF_REPO=$D/repo timeout 1500 /verif/check $c --tier $T 2>&1 | grep -v conda)
+  out=$(VF_REPO=$D/repo timeout 3000 /verif/check $c --tier $T 2>&1 | grep -v conda)
   rc=$(echo "$out" | tail -1 | grep -o "rc=[0-9]*")
   echo "== $c $rc :: $(echo "$out" | grep -c '^VIOLATION') violations; $(echo "$out" | grep -m2 'case=' | cut -c1-160 | tr '\n' '|')"
 done
